@@ -355,6 +355,38 @@ func main() {
 				die(v.Pos(), "prepareQuery: a failing process* call must return its error")
 			}
 			stages = append(stages, readStage(pq, id.Name))
+		case *ast.RangeStmt:
+			// for _, process := range []func(...) error{processA, processB, ...} { if err := process(request, responseStream); err != nil { return err } }
+			cl, ok := v.X.(*ast.CompositeLit)
+			val, ok2 := v.Value.(*ast.Ident)
+			if !ok || !ok2 || len(v.Body.List) != 1 {
+				die(v.Pos(), "prepareQuery: loop over the process* functions not understood")
+			}
+			ifs, ok := v.Body.List[0].(*ast.IfStmt)
+			if !ok || exprString(ifs.Cond) != "err != nil" {
+				die(v.Pos(), "prepareQuery: loop over the process* functions not understood")
+			}
+			as, ok := ifs.Init.(*ast.AssignStmt)
+			if !ok || len(as.Rhs) != 1 {
+				die(v.Pos(), "prepareQuery: loop over the process* functions not understood")
+			}
+			c, ok := as.Rhs[0].(*ast.CallExpr)
+			if !ok {
+				die(v.Pos(), "prepareQuery: loop over the process* functions not understood")
+			}
+			if id, ok := c.Fun.(*ast.Ident); !ok || id.Name != val.Name {
+				die(v.Pos(), "prepareQuery: loop over the process* functions not understood")
+			}
+			if _, isRet := ifs.Body.List[len(ifs.Body.List)-1].(*ast.ReturnStmt); !isRet {
+				die(v.Pos(), "prepareQuery: a failing process* call must return its error")
+			}
+			for _, el := range cl.Elts {
+				id, ok := el.(*ast.Ident)
+				if !ok || !strings.HasPrefix(id.Name, "process") {
+					die(el.Pos(), "prepareQuery: expected a process* function")
+				}
+				stages = append(stages, readStage(pq, id.Name))
+			}
 		case *ast.ReturnStmt:
 		default:
 			die(s.Pos(), "prepareQuery: statement after the first transaction not understood")
